@@ -94,15 +94,16 @@ CHECKS = {
     'C07': (
         'Coq proof (state machine over the I/O boundaries of a load with any number of loaders, faults, kills and clears; inductive invariant; cache hit; recovery; latest tag) + per-run vm_compute correspondence against the real store driven boundary by boundary',
         'Machine-checked theorems about the store model: in EVERY reachable world - any number of concurrent loaders, any interleaving of their I/O boundaries '
-        '(isfile, fetch, create temp, read, write, os.replace, load), any fault (fetch raises, read raises, write fails after k bytes), a kill at any '
+        '(isfile, fetch, create temp, read, write, close, os.replace, load), any fault (fetch raises, read raises, write() fails after k bytes, the flush at close() fails after k bytes), a kill at any '
         'boundary, any clears in between - every cache location is absent or holds exactly the bytes the remote serves (never a prefix); a fetch happens only '
         'after an isfile that found the location absent; a complete copy is a cache hit (no fetch, nothing written, same ontology); whatever a load returns '
         'was parsed from exactly the served bytes; from every reachable world a fresh healthy load run alone succeeds and leaves a complete copy; the latest '
-        'release is the greatest tag, no tag -> ValueError; clear(type) removes exactly that type, clear() everything. Correspondence: all histories of '
-        'length <= 2 over 12 operations x {absolute, relative} store + random ones, a kill before every boundary, all 2-loader interleavings with <= 2 '
-        'preemptions (thorough: all 3432) with the store snapshot after every boundary, faulty / 3-loader races - compared with the model at every '
-        'checkpoint. PARTIAL: power-loss durability and non-POSIX rename are outside the model.',
-        'Trusted: Coq kernel + vm_compute; os.replace atomic, mkstemp names unique and never a cache location (encoded in the path type); boundaries '
+        'release is the greatest tag, no tag -> ValueError; clear(type) removes exactly that type, clear() everything; the file NAMES (<ID>/<id>.<release>.json, + .<random>.tmp) '
+        'as strings: classification is a left inverse of both naming functions, so cache locations of different (type, release) never coincide and a temporary file is never a cache location. Correspondence: all histories of '
+        'length <= 2 over 13 operations x {absolute, relative} store + random ones, a kill before every boundary, all 2-loader interleavings with <= 2 '
+        'preemptions (thorough: all 12870) with the store snapshot after every boundary, faulty / 3-loader races - the RAW directory listing is classified inside Coq and compared with the model at every '
+        'checkpoint, resolve_store_path is compared with final_name. PARTIAL: power-loss durability and non-POSIX rename are outside the model.',
+        'Trusted: Coq kernel + vm_compute; os.replace atomic, mkstemp random parts unique (that a temporary name is never a cache location is proved in Store/Paths.v); boundaries '
         'intercepted by harness-side replacement of module attributes; GitHub services not modelled. Two genuine defects fixed in /repo (fix: 344b425 atomic '
         'publish, fix: c7445cc clear paths).',
         '§4 C07'),
